@@ -203,6 +203,15 @@ REVERTS = [
                         z = dataframe.tz_to_dt_tz(tz[col])
                         dt = pd.Series([], dtype=dt).dt.tz_localize(z).dtype
 """, ""),
+    ('revert-F51-object-int-guess-not-verified', ['C01'], 'fastparquet/writer.py',
+     """                    if (data.dtype.kind == "i" and
+                            (values.astype("float64") != data).any()):
+""", """                    if False:
+"""),
+    ('revert-F52-statistics-cache-kept', ['C04'], 'fastparquet/api.py',
+     """        # (statistics gathered before the row groups changed are void)
+        self._statistics = None
+""", ""),
 ]
 
 # functions whose twins are run per property (module, qualname)
